@@ -308,9 +308,8 @@ def build (b : Builder) : Nat :=
 /-- `build_strict`: the packed value, or a panic carrying the error's name -/
 def buildStrict (feats : Features) (b : Builder) : Except String Nat :=
   let packed := b.build
-  match formatError feats packed with
-  | "Success" => .ok packed
-  | e => .error e
+  let e := formatError feats packed
+  if e = "Success" then .ok packed else .error e
 end Builder
 
 /-- `NumberFormatBuilder::rebuild(format)` (`… as u8` is `% 256`) -/
